@@ -125,6 +125,10 @@ def run_case(ctx, col, case):
     configure()
     if rng.random() < 0.4:
         g.set_distance_mode("relative")
+    # half of the histories run under non-default modal settings (the limits are plain numbers: no
+    # feed mode, unit system, plane or extrusion mode suspends them)
+    if rng.random() < 0.5:
+        modal_switches(rng, g, col, rng.randint(1, 4))
     s.drain()
 
     # every fourth history registers a move hook that rewrites the F or S word of some linear moves with a
@@ -222,6 +226,10 @@ def run_case(ctx, col, case):
         if rng.random() < 0.05:
             configure()
             continue
+        if rng.random() < 0.04:
+            modal_switches(rng, g, col, 1)
+            s.drain()
+            continue
         start_pos = tuple(g.position)
         start_rel = g.distance_mode.is_relative
         name, args, kw, prop, cls, expect_inside, motion = draw_call(rng, g, bounds, start_pos, start_rel)
@@ -262,6 +270,23 @@ def run_case(ctx, col, case):
             col.count("rejected_out_of_bounds")
     if case % 199 == 0:
         col.sample({"case": case, "dp": dp, "bounds": _jb(bounds), "history": log[:12]})
+
+
+MODAL = {"set_feed_mode": ["units/min", "units/rev", "1/time"],
+         "set_extrusion_mode": ["absolute", "relative"],
+         "set_plane": ["xy", "zx", "yz"],
+         "set_time_units": ["s", "ms"],
+         "set_temperature_units": ["celsius", "kelvin"],
+         "set_length_units": ["mm", "in"]}
+
+
+def modal_switches(rng, g, col, n):
+    for _ in range(n):
+        which = rng.choice(sorted(MODAL))
+        value = rng.choice(MODAL[which])
+        getattr(g, which)(value)
+        col.count("modal_switches")
+        col.count(f"modal:{which}={value}")
 
 
 def draw_call(rng, g, bounds, pos, rel):
